@@ -80,6 +80,13 @@ let register (reg : string -> (string list -> string) -> unit) =
       let (r, h') = open_step (tok_bool h) { opts_valid = tok_bool v; os_open_ok = tok_bool o; init_ok = tok_bool i } in
       (match r with OpenOk -> "ok" | OpenErrLock -> "lock" | OpenErrOther -> "error") ^ " " ^ bool_tok h'
     | _ -> failwith "args");
+  (* pqparse <P> <pos> <n> <stream hex> : the model reader on a payload stream *)
+  reg "pqparse" (fun a -> match a with
+    | [pp; pos; n; st] ->
+      (match parse_from (nat_of_int (int_of_string pp)) (bytes_of_tok st) (nat_of_int (int_of_string pos)) (nat_of_int (int_of_string n)) with
+       | Some evs -> "ok " ^ String.concat " " (List.map tok_of_bytes evs)
+       | None -> "short")
+    | _ -> failwith "args");
   reg "pagescript" pagescript;
   (* lockscript s p r op... : per op the new state, or B when the op would block (state unchanged) *)
   reg "lockscript" (fun a -> match a with
